@@ -40,8 +40,6 @@ void profile_blast(RunCtx& ctx)
     auto blocks = list_blocks(m);
     std::vector<std::string> prefix_of(blocks.size());
     for (size_t b = 0; b < blocks.size(); ++b) {
-        if (blocks[b].kind == BlockRef::SYSTEM)
-            continue;
         prefix_of[b] = rng.pick(prefixes);
         if (prefix_of[b].empty())
             continue;
